@@ -248,6 +248,10 @@ def ledger_route(ctx, i):
                         ('SELECT account, year, sum(position) AS s GROUP BY 1, 2 PIVOT BY 1, 2', None),
                         ('SELECT account, balance WHERE account ~ "Nope"', ['str', 'inventory']),
                         ('SELECT account, position.units AS amt WHERE number != 0', ['str', 'amount']),
+                        # columns of the typed tables, the renamed ones among them (discrepancy, name)
+                        ('SELECT account, amount, discrepancy FROM #balances', ['str', 'amount', 'amount']),
+                        ('SELECT date, currency, amount FROM #prices', ['date', 'str', 'amount']),
+                        ('SELECT name, date FROM #commodities', ['str', 'date']),
                         ('SELECT weight.currency AS c, price AS p, position.units AS u, entry.flag AS f', ['str', 'amount', 'amount', 'str'])]:
         case = {'statement': text, 'ledger': led.text}
         try:
